@@ -22,8 +22,8 @@ RULE = ('module M (4-40 functions, data segments incl. passive ones + memory.ini
         '>= 2 implementation files, both static and dynamic functions, >= 2 worker threads with >= 3 files, or >= 3 options; '
         'distinct by (module, option set).')
 ASSUME = ['command lines put options before the two positional arguments; -t is never passed to a HAS_PTHREAD=0 build',
-          'worker interleavings are sampled by real threads here; generated schedules are added by the vsched harness (see '
-          'DESIGN section 7 C09 / Appendix A) when present in the evidence as schedules_explored']
+          'producer/worker interleavings: real threads (1-64 workers, byte-identical results) plus generated schedules of the '
+          'vsched-linked translator (evidence key schedules_explored); both are samples, not an enumeration']
 
 IMPL = re.compile(r'^[sd][0-9]{10}\.c$')
 FDEF = re.compile(r'^(?:U32|U64|F32|F64|void) (f\d+)\([^;]*\)(?: __asm__\(.*\))? ?\{$', re.M)
@@ -325,7 +325,84 @@ def task(wid, seed, params):
     return res
 
 
+def sched_task(wid, seed, params):
+    """the translator's producer / worker-pool protocol under vsched: generated decision strings choose every interleaving
+    step at the pthread calls; each run must terminate (no scheduler-detected deadlock), exit 0 and produce the baseline files"""
+    res = {'evaluations': 0, 'nontrivial': set(), 'classes': collections.Counter(), 'samples': [], 'violations': [],
+           'infra': [], 'extra': collections.Counter()}
+    for ci in range(params['ncases']):
+        ch = Chooser(seed * 1000003 + ci)
+        try:
+            mk, m, script, meta = gen_case(ch, params)
+        except wasm.Invalid:
+            continue
+        wb = wasm.encode(m)
+        nf = len(m.funcs)
+        opts = ['-f', str(ch.pick((1, 2, 3))), '-t', str(ch.pick((2, 3, 4)))]
+        if ch.below(3) == 1:
+            opts.append('-g')
+        if ch.below(3) == 1:
+            opts.append('-p')
+        d0, tr0 = translate_to(wb, opts, 'plain')
+        try:
+            if tr0.rc != 0:
+                continue
+            base = read_outputs(d0)
+        finally:
+            cexec.rm(d0)
+        for si in range(params['schedules']):
+            c2 = Chooser(seed * 7919 + ci * 131 + si)
+            dec = bytes(c2.below(256) for _ in range(c2.pick((0, 8, 40, 150, 600)))).hex()
+            d, tr = cexec.new_dir('vs'), None
+            try:
+                tr = cexec.translate(wb, d, 'm', opts, 'vsched', env={'VSCHED_DECISIONS': dec, 'VSCHED_SPURIOUS': str(c2.pick((0, 2, 5)))})
+                res['evaluations'] += 1
+                res['extra']['schedules_explored'] += 1
+                files = read_outputs(d) if tr.rc == 0 else None
+            finally:
+                cexec.rm(d)
+            nimpl = len([n for n in base if IMPL.match(n)])
+            if nimpl >= 3:
+                res['nontrivial'].add(f1.hx((wb, tuple(opts), dec)))
+                res['classes']['schedule_threads>=2_files>=3'] += 1
+            bad = None
+            if tr.rc == 66:
+                bad = ('sched-deadlock', 'worker pool deadlocks under a generated schedule: ' + tr.err.decode(errors='replace')[-200:])
+            elif tr.rc != 0:
+                bad = ('sched-exit', 'translator exit %r under a generated schedule: %s' % (tr.rc, tr.err.decode(errors='replace')[-200:]))
+            elif files != base:
+                diff = sorted(set(files) ^ set(base)) or [n for n in files if base.get(n) != files[n]]
+                bad = ('sched-output', 'output differs under a generated schedule: %s' % diff[:4])
+            if bad and len(res['violations']) < 2:
+                res['violations'].append({'signature': 'c09:' + bad[0], 'summary': bad[1] + ' | options=%s decisions=%s' % (' '.join(opts), dec[:40]),
+                                          'replay': {'kind': 'c09-sched', 'module_hex': wb.hex(), 'options': opts, 'decisions': dec}})
+                break
+        if ci < 1:
+            res['samples'].append({'vsched_translator_run': ' '.join(opts), 'functions': nf, 'decision_bytes': len(dec) // 2})
+    res['extra'] = dict(res['extra'])
+    return res
+
+
+def dispatch(wid, seed, params):
+    if params.get('sched'):
+        return sched_task(wid, seed, params)
+    return task(wid, seed, params)
+
+
 def replay(rp):
+    if rp.get('kind') == 'c09-sched':
+        wb = bytes.fromhex(rp['module_hex'])
+        d0, tr0 = translate_to(wb, rp['options'], 'plain')
+        try:
+            base = read_outputs(d0) if tr0.rc == 0 else None
+        finally:
+            cexec.rm(d0)
+        d = cexec.new_dir('vs')
+        try:
+            tr = cexec.translate(wb, d, 'm', rp['options'], 'vsched', env={'VSCHED_DECISIONS': rp['decisions']})
+            return tr.rc != 0 or read_outputs(d) != base
+        finally:
+            cexec.rm(d)
     wb = bytes.fromhex(rp['module_hex'])
     refb = bytes.fromhex(rp['ref_hex'])
     m = wasm.decode(wb)
@@ -362,9 +439,9 @@ def replay(rp):
 
 def plan(tier, seed):
     if tier == 'quick':
-        return [{'ncases': 8, 'nvariants': 4} for _ in range(32)]
-    return [{'ncases': 80, 'nvariants': 12} for _ in range(64)]
+        return [{'ncases': 8, 'nvariants': 4} for _ in range(28)] + [{'sched': True, 'ncases': 6, 'schedules': 40} for _ in range(4)]
+    return [{'ncases': 80, 'nvariants': 12} for _ in range(56)] + [{'sched': True, 'ncases': 60, 'schedules': 120} for _ in range(8)]
 
 
 def run(tier, seed):
-    return f1.standard_run(ID, LEVEL, RULE, ASSUME, plan(tier, seed), task, replay, tier, seed)
+    return f1.standard_run(ID, LEVEL, RULE, ASSUME, plan(tier, seed), dispatch, replay, tier, seed)
